@@ -127,6 +127,33 @@ def _r2(model, res):
                           '%s must see exactly the items x0..x3 once each however they are grouped into arguments and nested arrays; flat: %s, '
                           'but %s: %s' % (name, flat, diff[0] if diff else 'flat', results.get(diff[0]) if diff else flat), func=f.name)
     res.floor('aggregate x shape runs', n, 50)
+    # the single-range criteria functions select among the same items however the range is nested
+    for name in ('SUMIF', 'COUNTIF', 'AVERAGEIF'):
+        if name not in model.registry:
+            continue
+        m, f = model.registered(name)
+        sigs = {}
+        undecided = False
+        for sname, mk in (('flat', lambda: [ListV([Sym('int', 'x0'), Sym('int', 'x1')]), Const('>1')]),
+                          ('nested', lambda: [ListV([ListV([Sym('int', 'x0')]), ListV([Sym('int', 'x1')])]), Const('>1')])):
+            try:
+                outs = _runs(model, name, mk)
+            except Unmodelled:
+                undecided = True
+                break
+            if any(o.imprecise for o in outs):
+                undecided = True
+                break
+            sigs[sname] = sorted((o.kind, repr(o.value), tuple(sorted('%r=%s' % (s_, a_) for (t_, a_, s_) in o.notes if s_ is not None))) for o in outs)
+        if undecided:
+            res.ob('R2', name, 'flat / nested range', True, 'undecided')
+            continue
+        ok = sigs['flat'] == sigs['nested']
+        res.ob('R2', name, 'the same selection and value for a flat and a nested range', ok, repr(sigs['nested'])[:160])
+        if not ok:
+            res.violation('R2', 'function:%s:regrouping' % name, m.where(f),
+                          '%s over the items x0, x1 with the criterion ">1" differs when the range is given as nested rows: flat %s, nested %s'
+                          % (name, sigs['flat'][:2], sigs['nested'][:2]), func=f.name)
 
 
 def _r3(model, res):
@@ -323,6 +350,45 @@ def _r6(model, res, E):
                           func=f.name)
 
 
+def _mode_worlds(model, res, m, f, outs):
+    """MODE written out by hand: on three symbolic items and each of the 5 ways they can coincide, every trace consistent with the
+    pattern returns an item of the most frequent class (no constraint when all three differ).  True/False, None = not decidable."""
+    parts = [((0, 1, 2),), ((0, 1), (2,)), ((0, 2), (1,)), ((1, 2), (0,)), ((0,), (1,), (2,))]
+    ok_all = True
+    for part in parts:
+        block = {}
+        for bi, b in enumerate(part):
+            for i in b:
+                block[i] = bi
+        modal = max(part, key=len)
+        free = len(modal) == 1
+        for o in outs:
+            if o.imprecise:
+                return None
+            consistent = True
+            for (t, alt, s_) in o.notes:
+                if isinstance(s_, Atom) and s_.op in ('eq', 'ne') and len(s_.args) == 2 and all(isinstance(a, Sym) and a.name in ('x0', 'x1', 'x2') for a in s_.args):
+                    i, j = int(s_.args[0].name[1]), int(s_.args[1].name[1])
+                    same = block[i] == block[j]
+                    if (same if s_.op == 'eq' else not same) != bool(alt):
+                        consistent = False
+                        break
+                elif isinstance(s_, Atom) and s_.op in ('lt', 'gt', 'le', 'ge'):
+                    return None         # an implementation that orders the items: not evaluated on equality patterns alone
+            if not consistent or free:
+                continue
+            v = o.value
+            good = o.kind == 'return' and isinstance(v, Sym) and v.name in ['x%d' % i for i in modal]
+            res.ob('R7', 'MODE', {'equal items': [list(b) for b in part if len(b) > 1]}, good, '%s %r' % (o.kind, v))
+            if not good:
+                ok_all = False
+                res.violation('R7', 'function:MODE:most-frequent', m.where(f),
+                              'MODE of three items of which the items %s are equal (and the other differs) must be that repeated value; a trace '
+                              'consistent with this returns %r - e.g. occurrences that are not adjacent are not counted together'
+                              % (['x%d' % i for i in modal], v), case={'equal': list(modal)}, func=f.name)
+    return ok_all
+
+
 def _r7(model, res):
     for name, op in sorted(DELEGATION.items()):
         m, f = model.registered(name)
@@ -330,6 +396,10 @@ def _r7(model, res):
         vals = [o for o in outs if not o.imprecise]
         ok = len(vals) == 1 and vals[0].kind == 'return' and isinstance(vals[0].value, Atom) and vals[0].value.op == op and \
             [getattr(a, 'name', None) for a in vals[0].value.args] == ['x0', 'x1', 'x2']
+        if not ok and name == 'MODE' and vals and len(vals) == len(outs):
+            verdict = _mode_worlds(model, res, m, f, outs)
+            if verdict is not None:
+                continue
         res.ob('R7', name, '%s over the items' % op, ok, H.describe(outs)[:2])
         if not ok:
             res.violation('R7', 'function:%s:delegation' % name, m.where(f),
@@ -378,6 +448,17 @@ def _r7(model, res):
             res.violation('R7', 'function:SLOPE:formula', m.where(f),
                           'SLOPE on three points is not (n*Sxy - Sx*Sy)/(n*Sxx - Sx^2) as an algebraic identity', func=f.name)
     res.soft_floor('SLOPE value traces', n, 1)
+    # ... and the slope exists whenever the denominator is not exactly zero: the error exit is decided by `== 0`, not by a tolerance
+    for o in outs:
+        if o.imprecise or o.kind != 'return' or o.value.tag != 'err':
+            continue
+        for (t, alt, s_) in o.notes:
+            if isinstance(s_, Atom) and s_.op in ('lt', 'le', 'gt', 'ge') and any(isinstance(a, Const) and isinstance(a.value, (int, float))
+                                                                                   and not isinstance(a.value, bool) and a.value != 0 for a in s_.args):
+                res.ob('R7', 'SLOPE', 'the error exit is taken only for a zero denominator', False, t)
+                res.violation('R7', 'function:SLOPE:tolerance', m.where(f),
+                              'SLOPE gives an error on the decision "%s" - a comparison with a tolerance: x values with a small but non-zero spread '
+                              '(where the least-squares slope is perfectly defined) yield an error instead of the slope' % t, func=f.name)
     # LARGE: n-th largest = sorted ascending, index -n
     m, f = model.registered('LARGE')
     outs = _runs(model, 'LARGE', lambda: [ListV([Sym('int', 'x0'), Sym('int', 'x1'), Sym('int', 'x2')]), Aff(1, 0, 'int', 'n')])
